@@ -590,7 +590,17 @@ class Evaluator:
             if i.is_const():
                 return base[int(i.const_value())]
         if isinstance(base, PW):
-            # elementwise arrays: x[idx] of a symbolic array is the same symbolic element
+            sl = e.slice
+            # broadcasting / whole-array slices keep the generic element; a *constant* position picks one
+            # particular element, which is a different quantity (x[0] is not "the element of this compartment")
+            if isinstance(sl, ast.Constant) and isinstance(sl.value, int) or \
+                    (isinstance(sl, ast.UnaryOp) and isinstance(sl.operand, ast.Constant)):
+                r = base.single()
+                if r is None:
+                    raise Und("constant subscript of a piecewise value")
+                return PW.of(Rat.atom(f"({r})@[{ast.unparse(sl)}]"))
+            if isinstance(sl, (ast.Slice, ast.Tuple)) or (isinstance(sl, ast.Constant) and sl.value is None):
+                return base
             return base
         raise Und("subscript")
 
